@@ -462,6 +462,15 @@ static const jf0_t jf0_tab[16] = { jf0<0>, jf0<1>, jf0<2>, jf0<3>, jf0<4>, jf0<5
 static const vf0_t vf0_tab[16] = { vf0<0>, vf0<1>, vf0<2>, vf0<3>, vf0<4>, vf0<5>, vf0<6>, vf0<7>, vf0<8>, vf0<9>, vf0<10>, vf0<11>, vf0<12>, vf0<13>, vf0<14>, vf0<15> };
 
 enum { OBJ_MAGIC = 0x5eed5eed };
+// An argument type with heap storage and a destructor that converts from and to int64 (so that the harness
+// still compiles on a tree whose call records pass a neighbouring argument in its place): the decimal text
+// of the number in a String on the heap.
+struct Tag {
+  String s;
+  Tag(int64 v) : s(String("tag:") + String::fromInt64(v)) {}
+  operator int64() const { return s.substr(4).toInt64(); }
+  bool is(int64 v) const { return s == String("tag:") + String::fromInt64(v); }
+};
 struct Obj;
 static inline bool obj_is_slot(const Obj* o, int slot);
 struct Obj {
@@ -478,15 +487,17 @@ struct Obj {
   void v2(CallRec* r, int64 a) { chk(r); job_body(r, a); }
   void v3(CallRec* r, int64 a, int64 b) { chk(r); EXTRA(r, a, b, 1); job_body(r, a); }
   void v4(CallRec* r, int64 a, int64 b, int64 c) { chk(r); EXTRA(r, a, b, 1); EXTRA(r, a, c, 2); job_body(r, a); }
-  // Future<String>: String parameters (by value and by const reference), arguments of another type than the parameter
+  // Future<String>: parameters with heap storage (by value and by const reference), arguments of another type than the parameter
   String s2(CallRec* r, int64 a) { chk(r); return str_of(job_body(r, a)); }
-  String s3(CallRec* r, String tag, int64 a) { chk(r); if(!(tag == String::fromInt64(a))) r->bad = 1; return str_of(job_body(r, a)); }
+  String s3(CallRec* r, Tag tag, int64 a) { chk(r); if(!tag.is(a + 1)) r->bad = 1; return str_of(job_body(r, a)); }
 };
 static Obj objs[MAXF];
 static inline bool obj_is_slot(const Obj* o, int slot) { return slot >= 0 && slot < MAXF && o == &objs[slot]; }
 static String sjob(CallRec* r, int64 a) { return str_of(job_body(r, a)); }
-static String sf3(CallRec* r, const String& tag, int64 a) { if(!(tag == String::fromInt64(a))) r->bad = 1; return str_of(job_body(r, a)); }
-static String sf4(CallRec* r, String tag, int64 a, int64 b) { if(!(tag == String::fromInt64(a))) r->bad = 1; EXTRA(r, a, b, 1); return str_of(job_body(r, a)); }
+static String sf3(CallRec* r, const Tag& tag, int64 a) { if(!tag.is(a + 1)) r->bad = 1; return str_of(job_body(r, a)); }
+static String sf4(CallRec* r, Tag tag, int64 a, int64 b) { if(!tag.is(a + 1)) r->bad = 1; EXTRA(r, a, b, 1); return str_of(job_body(r, a)); }
+// arity 2 with a String argument: the argument travels as its decimal text
+static String sfs(CallRec* r, const String& text) { int64 a = text.toInt64(); if(!(String::fromInt64(a) == text)) r->bad = 1; return str_of(job_body(r, a)); }
 
 // start call r on slot f through the overload chosen by `variant`
 static void sl_start(int f, int variant, CallRec* r, int64 a)
@@ -499,16 +510,18 @@ static void sl_start(int f, int variant, CallRec* r, int64 a)
   if(variant == 10) ob.rec = r;
   if(variant == 0 && f < 16) cur0[f] = r;
   if(variant == 0 && f >= 16) variant = 2;
+  if(variant == 20 && !is_str(f)) variant = 2;
   if(is_str(f)) {
     // Future<String>: the arguments are copied into the call record as String / int (P) and converted to the
     // parameter types const String& / String / int64 (D) when the worker makes the call
     Future<String>& v = *sfuts[f];
-    String tag = String::fromInt64(a);
+    Tag tag((int64)(a + 1));
     switch(variant) {
     case 3: v.start(&sf3, r, tag, (int)a); break;
     case 4: v.start(&sf4, r, tag, (int)a, (int)(a + 1)); break;
     case 12: v.start(ob, &Obj::s2, r, (int)a); break;
     case 13: v.start(ob, &Obj::s3, r, tag, (int)a); break;
+    case 20: v.start(&sfs, r, String::fromInt64(a)); break;
     default: v.start(&sjob, r, a); break;
     }
     return;
@@ -662,8 +675,9 @@ static void op(long, long, vh::Tok& t)
   if(!strncmp(k, "start", 5) && t.n >= 6) {
     // start = free function of arity 2; startf<N> = free function of arity N; startm<N> = member function of arity N
     o.kind = K_START; o.arg = atoll(t.v[4]); o.work = atoi(t.v[5]);
-    o.variant = k[5] == 'f' ? atoi(k + 6) : k[5] == 'm' ? 10 + atoi(k + 6) : 2;
-    if(o.variant < 0 || o.variant > 14 || (o.variant > 5 && o.variant < 10)) return;
+    // starts = free function of arity 2 whose second parameter is a const String& (Future<String> slots; elsewhere = start)
+    o.variant = k[5] == 'f' ? atoi(k + 6) : k[5] == 'm' ? 10 + atoi(k + 6) : k[5] == 's' ? 20 : 2;
+    if(o.variant < 0 || (o.variant > 14 && o.variant != 20) || (o.variant > 5 && o.variant < 10)) return;
   }
   else if(!strcmp(k, "abort")) o.kind = K_ABORT;
   else if(!strcmp(k, "join")) o.kind = K_JOIN;
